@@ -330,7 +330,7 @@ impl Transport for PciTransport {
             .config_space
             .as_ref()
             .ok_or(Error::ConfigSpaceMissing)?;
-        if config_space.len() * size_of::<u32>() < offset + size_of::<T>() {
+        if config_space.len() * size_of::<u32>() < offset.saturating_add(size_of::<T>()) {
             Err(Error::ConfigSpaceTooSmall)
         } else {
             // SAFETY: If we have a config space pointer it must be valid for its length, and we
@@ -362,7 +362,7 @@ impl Transport for PciTransport {
             .config_space
             .as_mut()
             .ok_or(Error::ConfigSpaceMissing)?;
-        if config_space.len() * size_of::<u32>() < offset + size_of::<T>() {
+        if config_space.len() * size_of::<u32>() < offset.saturating_add(size_of::<T>()) {
             Err(Error::ConfigSpaceTooSmall)
         } else {
             // SAFETY: If we have a config space pointer it must be valid for its length, and we
